@@ -9,3 +9,67 @@ Theorem C12_productive :
          can is_term (productive_set g is_term) x = true <-> productive g is_term x.
 Proof. exact Productive.productive_set_correct. Qed.
 Print Assumptions C12_productive.
+
+From YG Require Import Pipeline Front FrontUsable.
+Local Open Scope nat_scope.
+
+(* the list of unusable nonterminals computed by the pipeline is exactly the set of nonterminals
+   (left-hand sides) that derive no string of terminals *)
+Theorem C12_unproductive_exact :
+  forall (gi : ginfo) (X : nat),
+    In X (unproductive gi) <->
+    X < gi_nsyms gi /\ is_nt_b (gi_rules gi) X = true /\
+    ~ Productive.productive (gi_rules gi) (is_term_of (gi_rules gi)) X.
+Proof. exact FrontUsable.unproductive_in. Qed.
+Print Assumptions C12_unproductive_exact.
+
+(* the model of BuildLALR1's checks (Front.build_grammar): a grammar object is produced exactly when
+   every symbol marked as a nonterminal (by %type, %start or as an unknown left-hand side) has a rule
+   and every nonterminal derives a terminal string; it is refused with "no rule" only for a symbol
+   marked nonterminal without a rule, and with "unproductive" exactly with the non-empty list of the
+   nonterminals that derive no terminal string; no other refusal exists besides a start symbol or a
+   rule symbol without a grammar symbol (a token numbered -1) *)
+Theorem C12_build_cases :
+  forall v : visited,
+    match build_grammar v with
+    | inl (FNoRule nm) =>
+        exists (s0 : nat) (rs : list (LRBase.rule * option nat)) (k : nat),
+          sym_index (skipn 2 (symbols_of v)) (vs_start v) = Some s0 /\
+          map_opt (build_rule (symbols_of v)) (vs_rules v) = Some rs /\
+          In k (norule_list v ({| LRBase.lhs := 0; LRBase.rhs := S (S s0) :: nil |} :: map fst rs)) /\
+          nm = s_name (nth k (symbols_of v)
+                 {| s_name := nil; s_value := 0%Z; s_tag := nil; s_declnt := false; s_prec := 0%Z; s_assoc := Resolve.NONE |})
+    | inl FNoStart =>
+        sym_index (skipn 2 (symbols_of v)) (vs_start v) = None \/ map_opt (build_rule (symbols_of v)) (vs_rules v) = None
+    | inl (FUnproductive l) =>
+        exists (s0 : nat) (rs : list (LRBase.rule * option nat)),
+          sym_index (skipn 2 (symbols_of v)) (vs_start v) = Some s0 /\
+          map_opt (build_rule (symbols_of v)) (vs_rules v) = Some rs /\
+          (let rules := ({| LRBase.lhs := 0; LRBase.rhs := S (S s0) :: nil |} :: map fst rs)%list in
+           norule_list v rules = nil /\ l <> nil /\
+           (forall X : nat, In X l <->
+              X < length (symbols_of v) /\ is_nt_b rules X = true /\ ~ Productive.productive rules (is_term_of rules) X))
+    | inr b =>
+        norule_list v (gi_rules (b_gi b)) = nil /\
+        (forall X : nat, X < length (symbols_of v) -> is_nt_b (gi_rules (b_gi b)) X = true ->
+           Productive.productive (gi_rules (b_gi b)) (is_term_of (gi_rules (b_gi b))) X) /\
+        gi_nsyms (b_gi b) = length (symbols_of v)
+    | inl _ => False
+    end.
+Proof. exact FrontUsable.build_grammar_cases. Qed.
+Print Assumptions C12_build_cases.
+
+(* the model of the visitor: it refuses only for a right-hand-side symbol that is neither declared nor
+   defined (or for an unknown symbol in a precedence line, which the parser never produces) *)
+Theorem C12_visit_cases :
+  forall a : ast,
+    match visit a with
+    | inl (FPrecUnknown n) => exists line : list precdef, In line (d_precs (a_decl a)) /\ In n (map pd_name line)
+    | inl (FUndefined n) => exists r : ruledef, In r (a_rules a) /\ In (RSym n) (r_rhs r)
+    | inr v =>
+        (forall (r : ruledef) (n : name), In r (a_rules a) -> In (RSym n) (r_rhs r) -> tab_has (vs_tab v) n = true) /\
+        map (fun x : vrule => (v_lhs x, v_rhs x)) (vs_rules v) = map (fun r : ruledef => (r_lhs r, rsyms (r_rhs r))) (a_rules a)
+    | inl _ => False
+    end.
+Proof. exact FrontUsable.visit_cases. Qed.
+Print Assumptions C12_visit_cases.
